@@ -10,7 +10,7 @@
 //!
 //! usage: h_justice run <seed:u64> <n_scenarios> <flags>
 //!        h_justice replay '{"seed":..,"k":..,"flags":".."}'
-//! flags: comma list of reload,styles,late | all | none; plus `rtquirk` (never implied by `all`): do not
+//! flags: comma list of reload,styles,late,fees | all | none; plus `rtquirk` (never implied by `all`): do not
 //!        steer around two artefacts of the test-only monitor round-trip assertion (see `run_scenario`);
 //!        with it some scenarios end in `"panic":"... assertion failed: new_monitor == *monitor"`.
 //! stdout: one line `R {json}` per scenario (TestLogger floods stdout with everything else).
@@ -40,8 +40,38 @@
 //!    | next_block | race. `S_held_back`: members of S the driver refused to confirm at least once
 //!    because of the round-trip artefact (2) described in `run_scenario`.
 //!  * `unspent`: outputs of the revoked commitment and of A's confirmed second-stage transactions that
-//!    nothing spent on the simulated chain (B's own to_remote output is expected here; it is reported
-//!    in `spendable` instead).
+//!    nothing spent on the simulated chain, each with `owed_to_b` = a complete punishment must have
+//!    taken it (A's balance output, HTLC outputs, second-stage outputs paired with an HTLC input).
+//!    B's own to_remote output, anchors and A's change outputs are expected here with
+//!    `owed_to_b:false`. `owed_unspent` counts the `true` ones (0 on a correct run).
+//!  * `chan_type` in legacy | anchors (anchors_zero_fee_htlc_tx) | zfc (zero-fee commitments, P2A
+//!    anchor). On anchor-type channels A's HTLC transactions are not pre-signed by its monitor: the
+//!    driver takes the HTLC descriptors from a copy of A's monitor of capture time (shown its own
+//!    commitment confirming), and assembles AGGREGATED second-stage transactions itself: HTLC inputs
+//!    with their SIGHASH_SINGLE-paired outputs at equal index (only HTLCs needing the same nLockTime
+//!    can share one: B's signature commits to it), plus fee inputs from a wallet of A (funded by a
+//!    coinbase-like transaction mined in phase `fund`), placed before / between / after the HTLC
+//!    inputs. Every such transaction is consensus-verified before use. `S_txs[i]`: the usual
+//!    transaction facts plus `htlc_inputs`, `fee_inputs` (input indices), `fee_in_pos` (one letter per
+//!    input: H/F), `kinds` (timeout|success per HTLC input), `conf_height`, `pos_in_block` (index in
+//!    the block's `mined` list), `same_block_as_commitment`. `captures[].htlc_txs` is empty there.
+//!  * `cheat.timing` additionally knows `later` (`later_gap` blocks after the commitment; anchors
+//!    HTLC inputs carry CSV 1, so `same_block` only occurs on legacy and zfc). In `same_block` the S
+//!    transactions follow the commitment in a random order. `cheat.outputs`: every output of the
+//!    revoked commitment with a `kind` guess (p2wsh | p2wpkh | anchor | p2a) and `cheater_paying`
+//!    (B's view: the revokeable output and the HTLC outputs).
+//!  * flag `fees`: after the S phases B's claims are left unconfirmed for `fee_delay` blocks (phase
+//!    `delay`, one block per step) while B's fee estimator follows `fee_trajectory` (flat | x2 | x5 |
+//!    x20 | collapse | ramp, relative to its value at the cheat); every block record carries `est` =
+//!    max(253, estimate for ConfirmationTarget::UrgentOnChainSweep) in effect while it was connected
+//!    (the TestFeeEstimator answers OutputSpendingFee, the target used once no HTLC is pending, with
+//!    the same number); `conf_target_feerates` = [[height, est], ...] over all steps.
+//!    `fee_violations` (also summed on stderr, must be 0 on a healthy tree): per input set of B's
+//!    justice transactions, a re-issue (new txid) must not lower the feerate (`not_monotone`), and
+//!    when `est` exceeds the previous feerate it must reach min(est, what half the claimed value
+//!    affords) (`below_estimate`); tolerance 2% + 3 sat/kw for weight / rounding differences.
+//!  * `Event::BumpTransaction` of B (its own commitment / HTLC claims on anchor-type channels) are
+//!    handed to its `bump_tx_handler` (`bump_events` per block).
 use std::cell::RefCell;
 use std::collections::{BTreeMap, HashMap, HashSet};
 use std::mem::ManuallyDrop;
@@ -50,12 +80,16 @@ use std::rc::Rc;
 
 use bitcoin::hashes::sha256::Hash as Sha256;
 use bitcoin::hashes::Hash;
-use bitcoin::secp256k1::PublicKey;
-use bitcoin::{OutPoint, Transaction, TxOut, Txid};
+use bitcoin::absolute::LockTime;
+use bitcoin::secp256k1::{Message, PublicKey, Secp256k1, SecretKey};
+use bitcoin::sighash::{EcdsaSighashType, SighashCache};
+use bitcoin::transaction::Version;
+use bitcoin::{Amount, OutPoint, ScriptBuf, Sequence, Transaction, TxIn, TxOut, Txid, Witness};
 
-use lightning::chain::chaininterface::ConfirmationTarget;
+use lightning::chain::chaininterface::{BroadcasterInterface, ConfirmationTarget, FeeEstimator, TransactionType};
 use lightning::chain::channelmonitor::ChannelMonitor;
 use lightning::chain::{BlockLocator, ChannelMonitorUpdateStatus, Listen};
+use lightning::events::bump_transaction::BumpTransactionEvent;
 use lightning::events::Event;
 use lightning::ln::chan_utils::CommitmentTransaction;
 use lightning::ln::channelmanager::{ChannelManagerReadArgs, PaymentId};
@@ -65,7 +99,8 @@ use lightning::ln::outbound_payment::RecipientOnionFields;
 use lightning::ln::types::ChannelId;
 use lightning::ln::verif_hooks as vh;
 use lightning::routing::router::{Path, PaymentParameters, Route, RouteHop, RouteParameters};
-use lightning::sign::SpendableOutputDescriptor;
+use lightning::sign::ecdsa::EcdsaChannelSigner;
+use lightning::sign::{HTLCDescriptor, SignerProvider, SpendableOutputDescriptor};
 use lightning::types::payment::{PaymentHash, PaymentPreimage};
 use lightning::util::ser::{ReadableArgs, Writeable};
 use lightning::util::test_channel_signer::TestChannelSigner;
@@ -132,6 +167,8 @@ struct TxFacts {
 	json: String,
 	verify_ok: bool,
 	fee: Option<u64>,
+	weight: u64,
+	sum_in: Option<u64>,
 }
 
 /// `extra`: additional `"k":v` members (without leading comma), may be empty.
@@ -192,7 +229,7 @@ fn tx_facts(tx: &Transaction, known: &HashMap<Txid, Transaction>, extra: &str) -
 		if extra.is_empty() { "" } else { "," },
 		extra
 	);
-	TxFacts { json, verify_ok: verify == "ok", fee }
+	TxFacts { json, verify_ok: verify == "ok", fee, weight, sum_in }
 }
 
 // ------------------------------------------------------------------------------------------
@@ -200,6 +237,7 @@ fn tx_facts(tx: &Transaction, known: &HashMap<Txid, Transaction>, extra: &str) -
 // ------------------------------------------------------------------------------------------
 #[derive(Default)]
 struct Rec {
+	chan_type: String,
 	style: String,
 	reloaded: bool,
 	updates: Vec<String>,
@@ -233,6 +271,21 @@ struct Rec {
 	cheat_htlcs: (u64, u64),
 	exhausted: bool,
 	mid_cheat: bool,
+	s_skipped: u64,
+	s_same_block: u64,
+	fee_in_pos: Vec<String>,
+	s_txs: Vec<String>,
+	fee_traj: String,
+	fee_delay: u64,
+	/// (height, bounded UrgentOnChainSweep estimate of B while the step ending at that height was connected)
+	conf_feerates: Vec<(u32, u32)>,
+	viol_monotone: u64,
+	viol_follow: u64,
+	viol_notes: Vec<String>,
+	/// per claim (input set): number of re-issues with a new txid, first and highest feerate
+	claim_stats: Vec<(u64, u64, u64)>,
+	bump_events_handled: u64,
+	owed_unspent: u64,
 }
 
 #[derive(Clone)]
@@ -241,22 +294,25 @@ struct Flags {
 	reload: bool,
 	styles: bool,
 	late: bool,
+	fees: bool,
 	/// NOT part of `all`: do not steer around the monitor round-trip quirk (see `run_scenario`)
 	rtquirk: bool,
 }
 impl Flags {
 	fn parse(s: &str) -> Flags {
-		let mut f = Flags { raw: s.to_string(), reload: false, styles: false, late: false, rtquirk: false };
+		let mut f = Flags { raw: s.to_string(), reload: false, styles: false, late: false, fees: false, rtquirk: false };
 		for t in s.split(',') {
 			match t.trim() {
 				"all" => {
 					f.reload = true;
 					f.styles = true;
 					f.late = true;
+					f.fees = true;
 				},
 				"reload" => f.reload = true,
 				"styles" => f.styles = true,
 				"late" => f.late = true,
+				"fees" => f.fees = true,
 				"rtquirk" => f.rtquirk = true,
 				_ => {},
 			}
@@ -297,6 +353,8 @@ struct Capture {
 	number: u64,
 	mid: bool,
 	txs: Vec<Transaction>,
+	/// A's serialized monitor at capture time (anchor-type channels: source of the HTLC descriptors)
+	mon_bytes: Option<Vec<u8>>,
 	nondust_a2b: u64,
 	nondust_b2a: u64,
 }
@@ -314,6 +372,7 @@ struct World {
 	fee0: u32,
 	connected: bool,
 	rtquirk: bool,
+	chan_type: &'static str,
 	captures: Vec<Capture>,
 	known: HashMap<Txid, Transaction>,
 }
@@ -538,7 +597,12 @@ impl World {
 		));
 		let nondust_a2b = self.pending.iter().filter(|h| h.from_a && !h.dust_class).count() as u64;
 		let nondust_b2a = self.pending.iter().filter(|h| !h.from_a && !h.dust_class).count() as u64;
-		self.captures.push(Capture { number, mid, txs: txn, nondust_a2b, nondust_b2a });
+		let mon_bytes = if self.chan_type != "legacy" {
+			Some(self.nodes[0].chain_monitor.chain_monitor.get_monitor(self.chan_id).unwrap().encode())
+		} else {
+			None
+		};
+		self.captures.push(Capture { number, mid, txs: txn, mon_bytes, nondust_a2b, nondust_b2a });
 	}
 
 	/// One random update of the history; returns its JSON.
@@ -589,7 +653,9 @@ impl World {
 				}
 				let dust = rng.below(4) == 0 || lim[from] < 3_000_000;
 				let amt = if dust {
-					100_000 + rng.below(400_001)
+					// always below the dust limit: HTLC transactions of anchor-type channels pay no fee, so
+					// there the limit is the bare 354 / 330 sat
+					100_000 + rng.below(if self.chan_type == "legacy" { 400_001 } else { 230_001 })
 				} else {
 					let hi = lim[from].min(40_000_000);
 					3_000_000 + rng.below(hi - 3_000_000 + 1)
@@ -656,7 +722,7 @@ impl World {
 	}
 
 	/// B's view of every commitment transaction of A it has signed, newest last (numbers descending).
-	fn mon_commitments(&self) -> (Vec<String>, HashMap<u64, Vec<(bool, u32, u32)>>) {
+	fn mon_commitments(&self) -> (Vec<String>, HashMap<u64, (Option<u32>, Vec<(bool, u32, u32)>)>) {
 		let mon = self.nodes[1].chain_monitor.chain_monitor.get_monitor(self.chan_id).unwrap();
 		let mut all: Vec<CommitmentTransaction> = Vec::new();
 		if let Some(c) = mon.initial_counterparty_commitment_tx() {
@@ -671,11 +737,14 @@ impl World {
 			}
 		}
 		all.sort_by(|x, y| y.commitment_number().cmp(&x.commitment_number()));
-		let mut by_number: HashMap<u64, Vec<(bool, u32, u32)>> = HashMap::new();
+		let mut by_number: HashMap<u64, (Option<u32>, Vec<(bool, u32, u32)>)> = HashMap::new();
 		for c in all.iter() {
 			by_number.insert(
 				c.commitment_number(),
-				c.nondust_htlcs().iter().map(|h| (h.offered, h.cltv_expiry, h.transaction_output_index.unwrap_or(u32::MAX))).collect(),
+				(
+					c.trust().revokeable_output_index().map(|i| i as u32),
+					c.nondust_htlcs().iter().map(|h| (h.offered, h.cltv_expiry, h.transaction_output_index.unwrap_or(u32::MAX))).collect(),
+				),
 			);
 		}
 		let json = all
@@ -800,6 +869,8 @@ impl World {
 // ------------------------------------------------------------------------------------------
 struct Chain {
 	conf: HashMap<Txid, u32>,
+	/// position among the transactions the driver put into the block
+	pos: HashMap<Txid, usize>,
 	spent: HashMap<OutPoint, Txid>,
 	/// B's broadcasts not yet confirmed, oldest first
 	b_pending: Vec<Transaction>,
@@ -816,6 +887,8 @@ struct Chain {
 	g_cluster_offered: bool,
 	steer: bool,
 	held_back: Vec<String>,
+	/// B's justice claims by input set: (last feerate, re-issues, first feerate, highest feerate)
+	claims: HashMap<String, (u64, u64, u64, u64)>,
 }
 
 impl Chain {
@@ -957,9 +1030,10 @@ impl Chain {
 	}
 
 	fn mark_mined(&mut self, txs: &[Transaction], h: u32) {
-		for t in txs.iter() {
+		for (p, t) in txs.iter().enumerate() {
 			let txid = t.compute_txid();
 			self.conf.insert(txid, h);
+			self.pos.insert(txid, p);
 			for i in t.input.iter() {
 				self.spent.insert(i.previous_output, txid);
 				if i.previous_output.txid == self.commit_txid {
@@ -977,6 +1051,7 @@ struct Drained {
 	spendable: Vec<String>,
 	msgs: usize,
 	mon_added: usize,
+	bumps: u64,
 }
 
 fn event_name(ev: &Event) -> String {
@@ -1014,7 +1089,7 @@ fn spendable_json(d: &SpendableOutputDescriptor, height: u32) -> String {
 }
 
 fn drain_b(w: &World) -> Drained {
-	let mut d = Drained { bcast: Vec::new(), events: Vec::new(), spendable: Vec::new(), msgs: 0, mon_added: 0 };
+	let mut d = Drained { bcast: Vec::new(), events: Vec::new(), spendable: Vec::new(), msgs: 0, mon_added: 0, bumps: 0 };
 	let b = &w.nodes[1];
 	let height = b.best_block_info().1;
 	for _round in 0..50 {
@@ -1039,6 +1114,11 @@ fn drain_b(w: &World) -> Drained {
 				for o in outputs.iter() {
 					d.spendable.push(spendable_json(o, height));
 				}
+			}
+			if let Event::BumpTransaction(bump) = &ev {
+				// anchor-type channels: B's own commitment / HTLC claims need its wallet
+				b.bump_tx_handler.handle_event(bump);
+				d.bumps += 1;
 			}
 			d.events.push(event_name(&ev));
 		}
@@ -1079,6 +1159,7 @@ fn balances_b(w: &World) -> Vec<String> {
 fn after_block(w: &mut World, chain: &mut Chain, rec: &Rc<RefCell<Rec>>, phase: &str, n: u32, mined: &[Transaction]) {
 	let d = drain_b(w);
 	let h = w.nodes[1].best_block_info().1;
+	let est = bounded_est(w) as u64;
 	// canonical order within one drain (the claim machinery walks randomly keyed maps)
 	let mut by_txid: BTreeMap<String, (Transaction, u64)> = BTreeMap::new();
 	for t in d.bcast.into_iter() {
@@ -1090,6 +1171,7 @@ fn after_block(w: &mut World, chain: &mut Chain, rec: &Rc<RefCell<Rec>>, phase: 
 	}
 	let mut bcast = Vec::new();
 	let mut fresh: Vec<(u64, String, Transaction)> = Vec::new();
+	let mut track: Vec<(u32, u64, String, String, u64, u64)> = Vec::new();
 	for (txid_s, (t, count)) in by_txid.iter() {
 		let txid = t.compute_txid();
 		let again = chain.b_seen.contains(&txid);
@@ -1107,6 +1189,11 @@ fn after_block(w: &mut World, chain: &mut Chain, rec: &Rc<RefCell<Rec>>, phase: 
 				r.b_txs += 1;
 				if t.input.iter().any(|i| chain.cheat_txids.contains(&i.previous_output.txid)) {
 					r.justice += 1;
+					if let (Some(fee), Some(sum_in)) = (f.fee, f.sum_in) {
+						let mut ins: Vec<String> = t.input.iter().map(|i| format!("{}:{}", i.previous_output.txid, i.previous_output.vout)).collect();
+						ins.sort();
+						track.push((t.lock_time.to_consensus_u32(), fee, txid_s.clone(), ins.join(","), f.weight, sum_in));
+					}
 				}
 			}
 		}
@@ -1114,6 +1201,42 @@ fn after_block(w: &mut World, chain: &mut Chain, rec: &Rc<RefCell<Rec>>, phase: 
 		if !again {
 			chain.b_seen.insert(txid);
 			fresh.push((f.fee.unwrap_or(0), txid_s.clone(), t.clone()));
+		}
+	}
+	// Fee discipline of re-issued claims, per input set. A step can span several blocks: B's claims
+	// carry the height they were made at as locktime, which gives their order.
+	track.sort();
+	{
+		let mut r = rec.borrow_mut();
+		for (_, fee, txid, key, weight, sum_in) in track {
+			let feerate = fee * 1000 / weight.max(1);
+			let tol = |x: u64| x / 50 + 3;
+			match chain.claims.get_mut(&key) {
+				None => {
+					chain.claims.insert(key, (feerate, 0, feerate, feerate));
+				},
+				Some(c) => {
+					let prev = c.0;
+					if feerate + tol(prev) < prev {
+						r.viol_monotone += 1;
+						r.viol_notes.push(format!("h={} tx={} feerate {} below previous {}", h, txid, feerate, prev));
+					}
+					if est > prev {
+						let affordable = (sum_in / 2) * 1000 / weight.max(1);
+						let want = est.min(affordable);
+						if feerate + tol(want) < want {
+							r.viol_follow += 1;
+							r.viol_notes.push(format!(
+								"h={} tx={} feerate {} below min(estimate {}, affordable {}) (previous {})",
+								h, txid, feerate, est, affordable, prev
+							));
+						}
+					}
+					c.0 = feerate;
+					c.1 += 1;
+					c.3 = c.3.max(feerate);
+				},
+			}
 		}
 	}
 	// "later" within one drain = higher fee
@@ -1129,11 +1252,15 @@ fn after_block(w: &mut World, chain: &mut Chain, rec: &Rc<RefCell<Rec>>, phase: 
 	events.sort();
 	let mut r = rec.borrow_mut();
 	r.spendable.extend(d.spendable.iter().cloned());
+	r.conf_feerates.push((h, est as u32));
+	r.bump_events_handled += d.bumps;
 	r.blocks.push(format!(
-		"{{\"h\":{},\"n\":{},\"phase\":\"{}\",\"mined\":{},\"bcast\":{},\"events\":{},\"msgs\":{},\"mon_added\":{},\"spendable\":{},\"balances\":{}}}",
+		"{{\"h\":{},\"n\":{},\"phase\":\"{}\",\"est\":{},\"bump_events\":{},\"mined\":{},\"bcast\":{},\"events\":{},\"msgs\":{},\"mon_added\":{},\"spendable\":{},\"balances\":{}}}",
 		h,
 		n,
 		phase,
+		est,
+		d.bumps,
 		jstrs(&mined_ids),
 		jarr(&bcast),
 		jstrs(&events),
@@ -1160,6 +1287,220 @@ fn empty_blocks(w: &mut World, chain: &mut Chain, rec: &Rc<RefCell<Rec>>, phase:
 }
 
 // ------------------------------------------------------------------------------------------
+// the cheater's second-stage transactions
+// ------------------------------------------------------------------------------------------
+struct NullBroadcaster;
+impl BroadcasterInterface for NullBroadcaster {
+	fn broadcast_transactions(&self, _txs: &[(&Transaction, TransactionType)]) {}
+}
+
+/// The HTLC descriptors A's monitor hands out for the captured holder commitment (anchor-type
+/// channels, where HTLC transactions are assembled outside the monitor): a copy of the monitor as
+/// it was at capture time is shown its own commitment confirming, then empty blocks up to `upto`
+/// (HTLC-timeout claims only appear once the HTLC has expired). Sorted by commitment output index.
+fn a_descriptors(w: &World, cap: &Capture, upto: u32) -> Vec<HTLCDescriptor> {
+	let bytes = match &cap.mon_bytes {
+		Some(b) => b,
+		None => return Vec::new(),
+	};
+	let km = w.nodes[0].keys_manager;
+	let (_, m) = <(BlockLocator, ChannelMonitor<TestChannelSigner>)>::read(&mut &bytes[..], (km, km)).expect("A's monitor snapshot");
+	let bb = m.current_best_block();
+	let mut height = bb.height;
+	let mut prev = bb.block_hash;
+	let mut out: BTreeMap<u32, HTLCDescriptor> = BTreeMap::new();
+	let mut first = true;
+	let stop = upto.max(height + 1) + 1;
+	while height < stop {
+		height += 1;
+		let header = create_dummy_header(prev, height);
+		prev = header.block_hash();
+		let txs: Vec<Transaction> = if first { vec![cap.txs[0].clone()] } else { Vec::new() };
+		first = false;
+		let txdata: Vec<(usize, &Transaction)> = txs.iter().enumerate().collect();
+		let _ = m.block_connected(&header, &txdata, height, &NullBroadcaster, w.nodes[0].fee_estimator, &w.nodes[0].logger);
+		let got: RefCell<Vec<Event>> = RefCell::new(Vec::new());
+		let handler = |ev: Event| -> Result<(), lightning::events::ReplayEvent> {
+			got.borrow_mut().push(ev);
+			Ok(())
+		};
+		let _ = m.process_pending_events(&&handler, &w.nodes[0].logger);
+		for ev in got.into_inner() {
+			if let Event::BumpTransaction(BumpTransactionEvent::HTLCResolution { htlc_descriptors, .. }) = ev {
+				for d in htlc_descriptors {
+					out.entry(d.htlc.transaction_output_index.unwrap_or(u32::MAX)).or_insert(d);
+				}
+			}
+		}
+	}
+	out.into_values().collect()
+}
+
+#[derive(Clone, Copy, PartialEq)]
+enum Slot {
+	/// index into the descriptor list
+	H(usize),
+	/// index into the fee utxo list
+	F(usize),
+}
+
+struct SMeta {
+	txid: Txid,
+	htlc_inputs: Vec<usize>,
+	fee_inputs: Vec<usize>,
+	/// one letter per input in order: H = HTLC input, F = fee input
+	fee_in_pos: String,
+	/// per HTLC input: timeout | success
+	kinds: Vec<&'static str>,
+}
+
+struct AWallet {
+	secp: Secp256k1<bitcoin::secp256k1::All>,
+	sk: SecretKey,
+	pk: bitcoin::PublicKey,
+	script: ScriptBuf,
+}
+impl AWallet {
+	fn new() -> AWallet {
+		let secp = Secp256k1::new();
+		let sk = SecretKey::from_slice(&[0xa7; 32]).unwrap();
+		let pk = bitcoin::PublicKey::new(sk.public_key(&secp));
+		let script = ScriptBuf::new_p2wpkh(&pk.wpubkey_hash().unwrap());
+		AWallet { secp, sk, pk, script }
+	}
+	/// A coinbase-like transaction paying `n` outputs of `value` sat to the wallet.
+	fn funding(&self, n: usize, value: u64, tag: u32) -> Transaction {
+		Transaction {
+			version: Version::TWO,
+			lock_time: LockTime::from_consensus(tag),
+			input: vec![TxIn { sequence: Sequence::MAX, ..Default::default() }],
+			output: (0..n).map(|_| TxOut { value: Amount::from_sat(value), script_pubkey: self.script.clone() }).collect(),
+		}
+	}
+	fn sign_input(&self, tx: &mut Transaction, idx: usize, value: Amount) {
+		let sighash = SighashCache::new(&*tx).p2wpkh_signature_hash(idx, &self.script, value, EcdsaSighashType::All).unwrap();
+		let msg = Message::from_digest(sighash.to_byte_array());
+		let sig = self.secp.sign_ecdsa(&msg, &self.sk);
+		let mut der = sig.serialize_der().to_vec();
+		der.push(EcdsaSighashType::All as u8);
+		tx.input[idx].witness = Witness::from_slice(&[der, self.pk.to_bytes()]);
+	}
+}
+
+const FEE_PER_FEE_INPUT: u64 = 2_000;
+
+/// Assembles and signs one aggregated second-stage transaction of A: HTLC inputs (each with its
+/// SIGHASH_SINGLE-paired output at the same index) and fee inputs in the order given by `slots`.
+/// A fee input placed before the last HTLC input gets a change output at its own index; the fee
+/// inputs after the last HTLC input share one change output at the very end iff `trailing_change`.
+fn build_agg(
+	w: &World, wallet: &AWallet, descs: &[HTLCDescriptor], slots: &[Slot], utxos: &[(OutPoint, TxOut)], trailing_change: bool,
+	version: i32,
+) -> (Transaction, SMeta) {
+	let secp = &wallet.secp;
+	let last_h = slots.iter().rposition(|s| matches!(s, Slot::H(_))).expect("at least one HTLC input");
+	let mut locktime = 0u32;
+	let mut tx = Transaction { version: Version(version), lock_time: LockTime::ZERO, input: Vec::new(), output: Vec::new() };
+	let mut trailing = 0u64;
+	let mut n_trailing = 0u64;
+	for (idx, sl) in slots.iter().enumerate() {
+		match sl {
+			Slot::H(d) => {
+				let desc = &descs[*d];
+				if desc.htlc.offered {
+					locktime = locktime.max(desc.htlc.cltv_expiry);
+				}
+				tx.input.push(desc.unsigned_tx_input());
+				tx.output.push(desc.tx_output(secp));
+			},
+			Slot::F(u) => {
+				let (op, out) = &utxos[*u];
+				tx.input.push(TxIn { previous_output: *op, sequence: Sequence(0xffff_fffd), ..Default::default() });
+				if idx < last_h {
+					tx.output.push(TxOut { value: out.value - Amount::from_sat(FEE_PER_FEE_INPUT), script_pubkey: wallet.script.clone() });
+				} else {
+					trailing += out.value.to_sat();
+					n_trailing += 1;
+				}
+			},
+		}
+	}
+	if trailing_change && n_trailing > 0 {
+		tx.output.push(TxOut { value: Amount::from_sat(trailing - n_trailing * FEE_PER_FEE_INPUT), script_pubkey: wallet.script.clone() });
+	}
+	tx.lock_time = LockTime::from_consensus(locktime);
+	let mut meta = SMeta { txid: tx.compute_txid(), htlc_inputs: Vec::new(), fee_inputs: Vec::new(), fee_in_pos: String::new(), kinds: Vec::new() };
+	for (idx, sl) in slots.iter().enumerate() {
+		match sl {
+			Slot::H(d) => {
+				let desc = &descs[*d];
+				let signer = w.nodes[0].keys_manager.derive_channel_signer(desc.channel_derivation_parameters.keys_id);
+				let sig = signer.sign_holder_htlc_transaction(&tx, idx, desc, secp).expect("A signs its HTLC input");
+				let ws = desc.witness_script(secp);
+				tx.input[idx].witness = desc.tx_input_witness(&sig, &ws);
+				meta.htlc_inputs.push(idx);
+				meta.fee_in_pos.push('H');
+				meta.kinds.push(if desc.htlc.offered { "timeout" } else { "success" });
+			},
+			Slot::F(u) => {
+				let value = utxos[*u].1.value;
+				wallet.sign_input(&mut tx, idx, value);
+				meta.fee_inputs.push(idx);
+				meta.fee_in_pos.push('F');
+			},
+		}
+	}
+	meta.txid = tx.compute_txid();
+	(tx, meta)
+}
+
+/// Best guess at what a commitment output is, plus whether it pays the broadcaster (A).
+fn output_kinds(tx: &Transaction, chan_type: &str, revokeable_vout: Option<u32>, htlc_vouts: &[u32]) -> Vec<String> {
+	tx.output
+		.iter()
+		.enumerate()
+		.map(|(i, o)| {
+			let i = i as u32;
+			let b = o.script_pubkey.as_bytes();
+			let cheater = revokeable_vout == Some(i) || htlc_vouts.contains(&i);
+			let kind = if b == [0x51, 0x02, 0x4e, 0x73] {
+				"p2a"
+			} else if b.len() == 22 && b[0] == 0 {
+				"p2wpkh"
+			} else if b.len() == 34 && b[0] == 0 {
+				if !cheater && chan_type == "anchors" && o.value.to_sat() == 330 {
+					"anchor"
+				} else {
+					"p2wsh"
+				}
+			} else {
+				"other"
+			};
+			format!(
+				"{{\"vout\":{},\"value\":{},\"script\":\"{}\",\"kind\":\"{}\",\"cheater_paying\":{},\"htlc\":{}}}",
+				i,
+				o.value.to_sat(),
+				hex(b),
+				kind,
+				cheater,
+				htlc_vouts.contains(&i)
+			)
+		})
+		.collect()
+}
+
+fn bounded_est(w: &World) -> u32 {
+	w.nodes[1].fee_estimator.get_est_sat_per_1000_weight(ConfirmationTarget::UrgentOnChainSweep).max(253)
+}
+
+fn shuffle<T>(v: &mut Vec<T>, rng: &mut Rng) {
+	for i in (1..v.len()).rev() {
+		let j = rng.below(i as u64 + 1) as usize;
+		v.swap(i, j);
+	}
+}
+
+// ------------------------------------------------------------------------------------------
 // one scenario
 // ------------------------------------------------------------------------------------------
 fn run_scenario(seed: u64, k: u64, flags: &Flags, rec: &Rc<RefCell<Rec>>) {
@@ -1173,7 +1514,20 @@ fn run_scenario(seed: u64, k: u64, flags: &Flags, rec: &Rc<RefCell<Rec>>) {
 	cfgs_v[0].keys_manager.disable_revocation_policy_check = true;
 	let cfgs: &'static Vec<TestChanMonCfg> = Box::leak(Box::new(cfgs_v));
 	let node_cfgs: &'static Vec<NodeCfg<'static>> = Box::leak(Box::new(create_node_cfgs(2, cfgs)));
-	let ucfg = test_legacy_channel_config(); // anchors off: HTLC transactions are pre-signed
+	let chan_type: &'static str = match rng.below(10) {
+		0..=3 => "legacy",
+		4..=6 => "anchors",
+		_ => "zfc",
+	};
+	rec.borrow_mut().chan_type = chan_type.to_string();
+	let mut ucfg = test_legacy_channel_config(); // anchors off: HTLC transactions are pre-signed
+	if chan_type != "legacy" {
+		ucfg = test_default_channel_config();
+		ucfg.channel_handshake_config.negotiate_anchors_zero_fee_htlc_tx = true;
+		if chan_type == "zfc" {
+			ucfg.channel_handshake_config.negotiate_anchor_zero_fee_commitments = true;
+		}
+	}
 	let node_chanmgrs: &'static Vec<TestChannelManager<'static, 'static>> =
 		Box::leak(Box::new(create_node_chanmgrs(2, node_cfgs, &[Some(ucfg.clone()), Some(ucfg)])));
 	let nodes = create_network(2, node_cfgs, node_chanmgrs);
@@ -1185,6 +1539,11 @@ fn run_scenario(seed: u64, k: u64, flags: &Flags, rec: &Rc<RefCell<Rec>>) {
 		o.insert(ConfirmationTarget::MinAllowedNonAnchorChannelRemoteFee, 253);
 	}
 	let ids = [nodes[0].node.get_our_node_id(), nodes[1].node.get_our_node_id()];
+	let mut reserve_tx: Option<Transaction> = None;
+	if chan_type != "legacy" {
+		// wallets for the anchor / HTLC bumps (one block with a coinbase paying both wallets, on both chains)
+		reserve_tx = Some(provide_anchor_reserves(&nodes));
+	}
 	let (_, _, chan_id, funding_tx) = create_announced_chan_between_nodes_with_value(&nodes, 0, 1, 1_000_000, 400_000_000);
 	let fee0 = *cfgs[0].fee_estimator.sat_per_kw.lock().unwrap();
 
@@ -1201,10 +1560,14 @@ fn run_scenario(seed: u64, k: u64, flags: &Flags, rec: &Rc<RefCell<Rec>>) {
 		fee0,
 		connected: true,
 		rtquirk: flags.rtquirk,
+		chan_type,
 		captures: Vec::new(),
 		known: HashMap::new(),
 	});
 	w.known.insert(funding_tx.compute_txid(), funding_tx.clone());
+	if let Some(t) = reserve_tx.as_ref() {
+		w.known.insert(t.compute_txid(), t.clone());
+	}
 	w.settle();
 	for n in 0..2 {
 		let _ = w.nodes[n].tx_broadcaster.txn_broadcast();
@@ -1248,47 +1611,155 @@ fn run_scenario(seed: u64, k: u64, flags: &Flags, rec: &Rc<RefCell<Rec>>) {
 	// ---------------- the cheat ----------------
 	let current = w.a_number();
 	let revoked: Vec<usize> = (0..w.captures.len()).filter(|i| w.captures[*i].number > current).collect();
-	let ci = revoked[rng.below(revoked.len() as u64) as usize];
+	// half of the time any revoked state, otherwise one that gives A second-stage transactions
+	let with_htlcs: Vec<usize> = revoked.iter().copied().filter(|i| w.captures[*i].nondust_a2b >= 1 || w.captures[*i].mid).collect();
+	let mids: Vec<usize> = revoked.iter().copied().filter(|i| w.captures[*i].mid).collect();
+	let pool: &Vec<usize> = match rng.below(4) {
+		0 | 1 => &revoked,
+		2 if !with_htlcs.is_empty() => &with_htlcs,
+		3 if !mids.is_empty() => &mids,
+		3 if !with_htlcs.is_empty() => &with_htlcs,
+		_ => &revoked,
+	};
+	let ci = pool[rng.below(pool.len() as u64) as usize];
 	let cheat_txs: Vec<Transaction> = w.captures[ci].txs.clone();
 	let cheat_number = w.captures[ci].number;
 	let commit_tx = cheat_txs[0].clone();
 	let commit_txid = commit_tx.compute_txid();
-	// every draw is made regardless of the flags, so that a scenario keeps its shape when flags are dropped
-	let s_draws: Vec<bool> = cheat_txs[1..].iter().map(|_| rng.below(2) == 0).collect();
-	let timing_draw = rng.below(3);
-	let age_draw = rng.below(2) == 0;
+	let (cheated_rev_vout, cheated_htlcs): (Option<u32>, Vec<(bool, u32, u32)>) = mon_htlcs.get(&cheat_number).cloned().unwrap_or((None, Vec::new()));
+	let legacy = chan_type == "legacy";
+
+	// A's second-stage transactions
+	rec.borrow_mut().doing = "building A's second-stage transactions".to_string();
+	let max_offered_cltv = cheated_htlcs.iter().filter(|(o, _, _)| *o).map(|(_, c, _)| *c).max().unwrap_or(0);
+	let descs: Vec<HTLCDescriptor> = if legacy || !flags.late { Vec::new() } else { a_descriptors(&w, &w.captures[ci], max_offered_cltv) };
+	let n_cand = if legacy { cheat_txs.len() - 1 } else { descs.len() };
+	let s_draws: Vec<bool> = (0..n_cand).map(|_| rng.below(2) == 0).collect();
+	let wallet = AWallet::new();
+	let mut metas: Vec<SMeta> = Vec::new();
+	let mut s_txs: Vec<Transaction> = Vec::new();
+	let mut s_skipped = 0u64;
+	let mut fee_fund: Option<Transaction> = None;
+	if flags.late && legacy {
+		for (t, d) in cheat_txs[1..].iter().zip(s_draws.iter()) {
+			if *d {
+				metas.push(SMeta {
+					txid: t.compute_txid(),
+					htlc_inputs: vec![0],
+					fee_inputs: Vec::new(),
+					fee_in_pos: "H".to_string(),
+					kinds: vec![if t.lock_time.to_consensus_u32() == 0 { "success" } else { "timeout" }],
+				});
+				s_txs.push(t.clone());
+			}
+		}
+	} else if flags.late {
+		let sel: Vec<usize> = (0..n_cand).filter(|i| s_draws[*i]).collect();
+		if !sel.is_empty() {
+			let fund = wallet.funding(8, 60_000, 7);
+			let fund_txid = fund.compute_txid();
+			w.known.insert(fund_txid, fund.clone());
+			let utxos: Vec<(OutPoint, TxOut)> =
+				fund.output.iter().enumerate().map(|(i, o)| (OutPoint { txid: fund_txid, vout: i as u32 }, o.clone())).collect();
+			// B's SIGHASH_SINGLE|ANYONECANPAY signature commits to nLockTime: only HTLCs needing the same
+			// locktime (0 for HTLC-success, the expiry for HTLC-timeout) can share a transaction
+			let mut by_locktime: BTreeMap<u32, Vec<usize>> = BTreeMap::new();
+			for d in sel {
+				let lt = if descs[d].htlc.offered { descs[d].htlc.cltv_expiry } else { 0 };
+				by_locktime.entry(lt).or_default().push(d);
+			}
+			let mut groups: Vec<Vec<usize>> = Vec::new();
+			for (_, members) in by_locktime {
+				let g = 1 + rng.below(members.len().min(2) as u64) as usize;
+				let mut parts: Vec<Vec<usize>> = vec![Vec::new(); g];
+				for d in members {
+					parts[rng.below(g as u64) as usize].push(d);
+				}
+				groups.extend(parts.into_iter().filter(|p| !p.is_empty()));
+			}
+			groups.truncate(4);
+			let mut next_utxo = 0usize;
+			for grp in groups.into_iter() {
+				let n = grp.len();
+				// zero-fee-commitment HTLC transactions pay no fee themselves: they always come with a fee input
+				let f = if chan_type == "zfc" { 1 + rng.below(2) } else { rng.below(3) };
+				let mut slots: Vec<Slot> = grp.iter().map(|d| Slot::H(*d)).collect();
+				for _ in 0..f {
+					let u = next_utxo;
+					next_utxo += 1;
+					match rng.below(3) {
+						0 => slots.insert(0, Slot::F(u)),
+						1 if n >= 2 => {
+							let first_h = slots.iter().position(|s| matches!(s, Slot::H(_))).unwrap();
+							let last_h = slots.iter().rposition(|s| matches!(s, Slot::H(_))).unwrap();
+							let at = first_h + 1 + rng.below((last_h - first_h) as u64) as usize;
+							slots.insert(at, Slot::F(u));
+						},
+						_ => slots.push(Slot::F(u)),
+					}
+				}
+				let trailing_change = rng.below(2) == 0;
+				let version = if chan_type == "zfc" { 3 } else { 2 };
+				let (tx, meta) = build_agg(&w, &wallet, &descs, &slots, &utxos, trailing_change, version);
+				w.known.insert(tx.compute_txid(), tx.clone());
+				match tx.verify(|op: &OutPoint| prevout_of(&w.known, op)) {
+					Ok(()) => {
+						metas.push(meta);
+						s_txs.push(tx);
+					},
+					Err(_) => s_skipped += 1,
+				}
+			}
+			fee_fund = Some(fund);
+		}
+	}
+	let timing_draw = rng.below(20);
+	let later_gap = 2 + rng.below(5) as u32;
+	let age_draw = rng.below(4);
 	let reload_draw = rng.below(2) == 0;
 	let style_draw = rng.below(11);
-	let s_txs: Vec<Transaction> = if flags.late {
-		cheat_txs[1..].iter().zip(s_draws.iter()).filter(|(_, d)| **d).map(|(t, _)| t.clone()).collect()
-	} else {
-		Vec::new()
-	};
+	let single_draw = rng.below(2) == 0;
 	let timing = if s_txs.is_empty() {
 		"none"
+	} else if chan_type == "anchors" {
+		// HTLC inputs carry a CSV of 1: never in the commitment's own block
+		match timing_draw {
+			0..=6 => "next_block",
+			7..=13 => "later",
+			_ => "race",
+		}
 	} else {
 		match timing_draw {
-			0 => "same_block",
-			1 => "next_block",
+			0..=8 => "same_block",
+			9..=11 => "next_block",
+			12..=14 => "later",
 			_ => "race",
 		}
 	};
+	let age_wanted = timing == "same_block" || if timing == "race" { age_draw < 2 } else { age_draw < 3 };
 	{
+		let htlc_vouts: Vec<u32> = cheated_htlcs.iter().map(|(_, _, v)| *v).collect();
+		let outs = output_kinds(&commit_tx, chan_type, cheated_rev_vout, &htlc_vouts);
 		let mut r = rec.borrow_mut();
 		r.age = Some(cheat_number - current);
 		r.s_len = Some(s_txs.len() as u64);
 		r.s_timing = Some(timing);
+		r.s_skipped = s_skipped;
 		r.both_dirs = w.captures[ci].nondust_a2b >= 1 && w.captures[ci].nondust_b2a >= 1;
 		r.cheat_htlcs = (w.captures[ci].nondust_a2b, w.captures[ci].nondust_b2a);
 		r.mid_cheat = w.captures[ci].mid;
+		r.fee_in_pos = metas.iter().map(|m| m.fee_in_pos.clone()).collect();
 		r.cheat = Some(format!(
-			"{{\"capture\":{},\"number\":{},\"current_number\":{},\"txid\":\"{}\",\"S\":{},\"timing\":\"{}\"}}",
+			"{{\"capture\":{},\"number\":{},\"current_number\":{},\"txid\":\"{}\",\"S\":{},\"timing\":\"{}\",\"later_gap\":{},\"S_unverifiable_skipped\":{},\"outputs\":{}}}",
 			ci,
 			cheat_number,
 			current,
 			commit_txid,
 			jstrs(&s_txs.iter().map(|t| t.compute_txid().to_string()).collect::<Vec<_>>()),
-			timing
+			timing,
+			if timing == "later" { later_gap } else { 0 },
+			s_skipped,
+			jarr(&outs)
 		));
 	}
 
@@ -1302,31 +1773,47 @@ fn run_scenario(seed: u64, k: u64, flags: &Flags, rec: &Rc<RefCell<Rec>>) {
 		r.reloads += 1;
 	}
 
-	let style = if flags.styles { style_from(style_draw) } else { ConnectStyle::BestBlockFirst };
+	// Styles that hand a block over exactly once get at least half of the same-block scenarios
+	let style = if !flags.styles {
+		ConnectStyle::BestBlockFirst
+	} else if timing == "same_block" && single_draw {
+		[ConnectStyle::BestBlockFirst, ConnectStyle::TransactionsFirst, ConnectStyle::FullBlockViaListen][(style_draw % 3) as usize]
+	} else {
+		style_from(style_draw)
+	};
 	*w.nodes[1].connect_style.borrow_mut() = style;
 	rec.borrow_mut().style = format!("{:?}", style);
 
 	let mut chain = Chain {
 		conf: HashMap::new(),
+		pos: HashMap::new(),
 		spent: HashMap::new(),
 		b_pending: Vec::new(),
 		b_seen: HashSet::new(),
 		a_remaining: s_txs.clone(),
-		cheat_txids: cheat_txs.iter().map(|t| t.compute_txid()).collect(),
+		cheat_txids: cheat_txs.iter().chain(s_txs.iter()).map(|t| t.compute_txid()).collect(),
 		commit_txid,
 		g_inputs: Vec::new(),
 		g_cluster_offered: false,
 		steer: !flags.rtquirk,
 		held_back: Vec::new(),
+		claims: HashMap::new(),
 	};
 	// the funding transaction confirmed long ago
 	chain.conf.insert(funding_tx.compute_txid(), 1);
+	if let Some(t) = reserve_tx.as_ref() {
+		chain.conf.insert(t.compute_txid(), 1);
+	}
+	if let Some(fund) = fee_fund.clone() {
+		// the wallet outputs A attaches to its second-stage transactions
+		mine(&mut w, &mut chain, rec, "fund", vec![fund]);
+	}
 
 	// A may wait until its HTLC-timeout transactions are final before it cheats
 	let h0 = w.nodes[1].best_block_info().1;
 	let need = s_txs.iter().filter(|t| !Chain::final_at(t, h0 + 1)).map(|t| t.lock_time.to_consensus_u32()).max();
 	if let Some(need) = need {
-		if age_draw && need < 500_000_000 {
+		if age_wanted && need < 500_000_000 {
 			rec.borrow_mut().aged = true;
 			let mut left = need - h0;
 			while left > 0 {
@@ -1363,7 +1850,6 @@ fn run_scenario(seed: u64, k: u64, flags: &Flags, rec: &Rc<RefCell<Rec>>) {
 		.find(|(k, _)| *k == "COUNTERPARTY_CLAIMABLE_WITHIN_BLOCKS_PINNABLE")
 		.map(|(_, v)| v as u32)
 		.unwrap_or(12);
-	let cheated_htlcs: Vec<(bool, u32, u32)> = mon_htlcs.get(&cheat_number).cloned().unwrap_or_default();
 	if !flags.rtquirk {
 		let bad: Vec<u32> = cheated_htlcs.iter().filter(|(offered, _, _)| !*offered).map(|(_, c, _)| *c).collect();
 		while bad.contains(&(w.nodes[1].best_block_info().1 + 1)) {
@@ -1385,15 +1871,24 @@ fn run_scenario(seed: u64, k: u64, flags: &Flags, rec: &Rc<RefCell<Rec>>) {
 		}
 	}
 
-	// block 1: the revoked commitment (+ A's second-stage transactions)
+	// block 1: the revoked commitment (+ A's second-stage transactions, in a random order)
 	let h1 = w.nodes[1].best_block_info().1 + 1;
 	let mut block = vec![commit_tx.clone()];
 	if timing == "same_block" {
-		chain.take_a(&s_txs, h1, &mut block);
+		let mut order = s_txs.clone();
+		shuffle(&mut order, &mut rng);
+		chain.take_a(&order, h1, &mut block);
 	}
-	rec.borrow_mut().s_early += (block.len() - 1) as u64;
+	{
+		let mut r = rec.borrow_mut();
+		r.s_early += (block.len() - 1) as u64;
+		r.s_same_block = (block.len() - 1) as u64;
+	}
 	mine(&mut w, &mut chain, rec, "cheat", block);
-	if timing == "next_block" {
+	if timing == "next_block" || timing == "later" {
+		if timing == "later" {
+			empty_blocks(&mut w, &mut chain, rec, "gap", later_gap - 1);
+		}
 		let h2 = w.nodes[1].best_block_info().1 + 1;
 		let mut block: Vec<Transaction> = Vec::new();
 		chain.take_a(&s_txs, h2, &mut block);
@@ -1401,6 +1896,51 @@ fn run_scenario(seed: u64, k: u64, flags: &Flags, rec: &Rc<RefCell<Rec>>) {
 			rec.borrow_mut().s_early += block.len() as u64;
 			mine(&mut w, &mut chain, rec, "cheat2", block);
 		}
+	}
+
+	// ---------------- fee trajectory while B's claims stay unconfirmed ----------------
+	let traj_draw = rng.below(6);
+	let delay_draw = rng.below(10);
+	if flags.fees {
+		let traj = ["flat", "x2", "x5", "x20", "collapse", "ramp"][traj_draw as usize];
+		let delay: u64 = match delay_draw {
+			0..=3 => 0,
+			4 | 5 => 16,
+			6 | 7 => 35,
+			8 => 60,
+			_ => 100,
+		};
+		let base = *w.cfgs[1].fee_estimator.sat_per_kw.lock().unwrap() as u64;
+		let t0 = 1 + rng.below(delay.max(1));
+		let t1 = t0 + 5 + rng.below(20);
+		let est_at = |i: u64| -> u32 {
+			let v = match traj {
+				"x2" if i >= t0 => base * 2,
+				"x5" if i >= t0 => base * 5,
+				"x20" if i >= t0 => base * 20,
+				"collapse" if i >= t1 => 253,
+				"collapse" if i >= t0 => base * 10,
+				"ramp" => {
+					let mut v = base;
+					for _ in 0..i.min(20) {
+						v = v * 13 / 10;
+					}
+					v.min(base * 40)
+				},
+				_ => base,
+			};
+			v as u32
+		};
+		{
+			let mut r = rec.borrow_mut();
+			r.fee_traj = traj.to_string();
+			r.fee_delay = delay;
+		}
+		for i in 1..=delay {
+			*w.cfgs[1].fee_estimator.sat_per_kw.lock().unwrap() = est_at(i);
+			empty_blocks(&mut w, &mut chain, rec, "delay", 1);
+		}
+		*w.cfgs[1].fee_estimator.sat_per_kw.lock().unwrap() = est_at(delay + 1);
 	}
 
 	// ---------------- drive to the end ----------------
@@ -1480,32 +2020,70 @@ fn run_scenario(seed: u64, k: u64, flags: &Flags, rec: &Rc<RefCell<Rec>>) {
 			.count() as u64;
 		rec.borrow_mut().s_lost = lost;
 	}
+	// what nothing spent on the simulated chain: outputs of the revoked commitment and of A's confirmed
+	// second-stage transactions. `owed_to_b` marks the ones a complete punishment must have taken:
+	// A's balance output, HTLC outputs, and second-stage outputs paired with an HTLC input.
+	let htlc_vouts: Vec<u32> = cheated_htlcs.iter().map(|(_, _, v)| *v).collect();
 	let mut unspent = Vec::new();
-	let mut onchain: Vec<Transaction> = vec![commit_tx.clone()];
-	for t in cheat_txs[1..].iter() {
-		if chain.conf.contains_key(&t.compute_txid()) {
-			onchain.push(t.clone());
+	let mut owed_unspent = 0u64;
+	for (vout, o) in commit_tx.output.iter().enumerate() {
+		let op = OutPoint { txid: commit_txid, vout: vout as u32 };
+		if !chain.spent.contains_key(&op) {
+			let owed = cheated_rev_vout == Some(vout as u32) || htlc_vouts.contains(&(vout as u32));
+			owed_unspent += owed as u64;
+			unspent.push(format!(
+				"{{\"outpoint\":\"{}:{}\",\"value\":{},\"script\":\"{}\",\"of\":\"commitment\",\"owed_to_b\":{}}}",
+				commit_txid,
+				vout,
+				o.value.to_sat(),
+				hex(o.script_pubkey.as_bytes()),
+				owed
+			));
 		}
 	}
-	for t in onchain.iter() {
+	let mut s_json = Vec::new();
+	for (t, m) in s_txs.iter().zip(metas.iter()) {
 		let txid = t.compute_txid();
-		for (vout, o) in t.output.iter().enumerate() {
-			let op = OutPoint { txid, vout: vout as u32 };
-			if !chain.spent.contains_key(&op) {
-				unspent.push(format!(
-					"{{\"outpoint\":\"{}:{}\",\"value\":{},\"script\":\"{}\"}}",
-					txid,
-					vout,
-					o.value.to_sat(),
-					hex(o.script_pubkey.as_bytes())
-				));
+		let conf = chain.conf.get(&txid).copied();
+		if conf.is_some() {
+			for (vout, o) in t.output.iter().enumerate() {
+				let op = OutPoint { txid, vout: vout as u32 };
+				if !chain.spent.contains_key(&op) {
+					let owed = m.htlc_inputs.contains(&vout);
+					owed_unspent += owed as u64;
+					unspent.push(format!(
+						"{{\"outpoint\":\"{}:{}\",\"value\":{},\"script\":\"{}\",\"of\":\"second_stage\",\"owed_to_b\":{}}}",
+						txid,
+						vout,
+						o.value.to_sat(),
+						hex(o.script_pubkey.as_bytes()),
+						owed
+					));
+				}
 			}
 		}
+		let extra = format!(
+			"\"htlc_inputs\":[{}],\"fee_inputs\":[{}],\"fee_in_pos\":\"{}\",\"kinds\":{},\"conf_height\":{},\"pos_in_block\":{},\"same_block_as_commitment\":{}",
+			m.htlc_inputs.iter().map(|i| i.to_string()).collect::<Vec<_>>().join(","),
+			m.fee_inputs.iter().map(|i| i.to_string()).collect::<Vec<_>>().join(","),
+			m.fee_in_pos,
+			jstrs(&m.kinds.iter().map(|k| k.to_string()).collect::<Vec<_>>()),
+			conf.map(|h| h.to_string()).unwrap_or_else(|| "null".to_string()),
+			chain.pos.get(&txid).map(|p| p.to_string()).unwrap_or_else(|| "null".to_string()),
+			conf.is_some() && conf == chain.conf.get(&commit_txid).copied()
+		);
+		debug_assert_eq!(m.txid, txid);
+		s_json.push(tx_facts(t, &w.known, &extra).json);
 	}
+	let mut claim_stats: Vec<(u64, u64, u64)> = chain.claims.values().map(|c| (c.1, c.2, c.3)).collect();
+	claim_stats.sort();
 	let fb = balances_b(&w);
 	let mut r = rec.borrow_mut();
 	r.held_back = chain.held_back.clone();
 	r.unspent = unspent;
+	r.owed_unspent = owed_unspent;
+	r.s_txs = s_json;
+	r.claim_stats = claim_stats;
 	r.final_balances = Some(fb);
 	// ManuallyDrop: never run Node::drop (test-suite expectations do not apply here)
 }
@@ -1545,9 +2123,21 @@ struct Stats {
 	s_race_won: u64,
 	exhausted: u64,
 	held_back: u64,
+	chan_types: BTreeMap<String, u64>,
+	/// chan_type / timing / |S| / fee_in_pos patterns
+	s_shape: BTreeMap<String, u64>,
+	same_block_styles: BTreeMap<String, u64>,
+	same_block_mined: u64,
+	traj: BTreeMap<String, u64>,
+	bumps_per_claim: BTreeMap<u64, u64>,
+	max_ratio: BTreeMap<String, u64>,
+	viol_monotone: u64,
+	viol_follow: u64,
+	s_skipped: u64,
+	bump_events: u64,
+	owed_unspent: u64,
 	drained: u64,
 	not_drained: u64,
-	unspent_nonempty: u64,
 }
 
 fn bucket(x: u64) -> u64 {
@@ -1588,11 +2178,12 @@ fn run_one(seed: u64, k: u64, flags: &Flags, stats: &mut Stats) {
 	};
 	let r = rec;
 	println!(
-		"R {{\"k\":{},\"seed\":{},\"flags\":{},\"panic\":{},\"style\":{},\"reloaded\":{},\"reloads\":{},\"aged\":{},\"exhausted\":{},\"updates\":{},\"captures\":{},\"mon_commitments\":{},\"cheat\":{},\"S_held_back\":{},\"funding\":{},\"blocks\":{},\"spendable\":{},\"unspent\":{},\"final_balances\":{}}}",
+		"R {{\"k\":{},\"seed\":{},\"flags\":{},\"panic\":{},\"chan_type\":{},\"style\":{},\"reloaded\":{},\"reloads\":{},\"aged\":{},\"exhausted\":{},\"updates\":{},\"captures\":{},\"mon_commitments\":{},\"cheat\":{},\"S_txs\":{},\"S_held_back\":{},\"fee_trajectory\":{},\"fee_delay\":{},\"conf_target\":\"UrgentOnChainSweep\",\"conf_target_feerates\":{},\"fee_violations\":{{\"not_monotone\":{},\"below_estimate\":{},\"notes\":{}}},\"funding\":{},\"blocks\":{},\"spendable\":{},\"unspent\":{},\"owed_unspent\":{},\"final_balances\":{}}}",
 		k,
 		seed,
 		js(&flags.raw),
 		jopt(&panic_msg),
+		js(&r.chan_type),
 		js(&r.style),
 		r.reloaded,
 		r.reloads,
@@ -1602,11 +2193,19 @@ fn run_one(seed: u64, k: u64, flags: &Flags, stats: &mut Stats) {
 		jarr(&r.captures),
 		jarr(&r.mon_commitments),
 		r.cheat.clone().unwrap_or_else(|| "null".to_string()),
+		jarr(&r.s_txs),
 		jstrs(&r.held_back),
+		js(&r.fee_traj),
+		r.fee_delay,
+		jarr(&r.conf_feerates.iter().map(|(h, e)| format!("[{},{}]", h, e)).collect::<Vec<_>>()),
+		r.viol_monotone,
+		r.viol_follow,
+		jstrs(&r.viol_notes),
 		r.funding.clone().unwrap_or_else(|| "null".to_string()),
 		jarr(&r.blocks),
 		jarr(&r.spendable),
 		jarr(&r.unspent),
+		r.owed_unspent,
 		match &r.final_balances {
 			Some(v) => jstrs(v),
 			None => "null".to_string(),
@@ -1653,24 +2252,61 @@ fn run_one(seed: u64, k: u64, flags: &Flags, stats: &mut Stats) {
 	stats.s_race_won_scen += (r.s_race_won > 0) as u64;
 	stats.exhausted += r.exhausted as u64;
 	stats.held_back += (!r.held_back.is_empty()) as u64;
+	*stats.chan_types.entry(r.chan_type.clone()).or_insert(0) += 1;
+	if let (Some(t), Some(n)) = (r.s_timing, r.s_len) {
+		if n > 0 {
+			let mut pos = r.fee_in_pos.clone();
+			pos.sort();
+			*stats.s_shape.entry(format!("{}/{}/{}/{}", r.chan_type, t, n, pos.join("+"))).or_insert(0) += 1;
+		}
+		if t == "same_block" {
+			*stats.same_block_styles.entry(r.style.clone()).or_insert(0) += 1;
+			stats.same_block_mined += (r.s_same_block > 0) as u64;
+		}
+	}
+	if !r.fee_traj.is_empty() {
+		*stats.traj.entry(format!("{}/D{}", r.fee_traj, r.fee_delay)).or_insert(0) += 1;
+	}
+	for (bumps, first, max) in r.claim_stats.iter() {
+		*stats.bumps_per_claim.entry(bucket(*bumps)).or_insert(0) += 1;
+		let ratio = if *first > 0 { max * 10 / first } else { 10 };
+		let b = match ratio {
+			0..=10 => "1.0",
+			11..=15 => "<=1.5",
+			16..=20 => "<=2",
+			21..=50 => "<=5",
+			51..=100 => "<=10",
+			101..=200 => "<=20",
+			_ => ">20",
+		};
+		*stats.max_ratio.entry(b.to_string()).or_insert(0) += 1;
+	}
+	stats.viol_monotone += r.viol_monotone;
+	stats.viol_follow += r.viol_follow;
+	stats.s_skipped += r.s_skipped;
+	stats.bump_events += r.bump_events_handled;
+	stats.owed_unspent += (r.owed_unspent > 0) as u64;
+	if r.owed_unspent > 0 || r.viol_monotone > 0 || r.viol_follow > 0 {
+		eprintln!(
+			"h_justice: ANOMALY replay={{\"seed\":{},\"k\":{},\"flags\":\"{}\"}} chan_type={} style={} timing={} owed_unspent={} fee_not_monotone={} fee_below_estimate={} {}",
+			seed,
+			k,
+			flags.raw,
+			r.chan_type,
+			r.style,
+			r.s_timing.unwrap_or("-"),
+			r.owed_unspent,
+			r.viol_monotone,
+			r.viol_follow,
+			r.viol_notes.first().cloned().unwrap_or_default()
+		);
+	}
 	if let Some(fb) = &r.final_balances {
 		if fb.is_empty() && !r.spendable.is_empty() {
 			stats.drained += 1;
 		} else {
 			stats.not_drained += 1;
 		}
-	}
-	// B's own to_remote output stays unspent legitimately (it is handed out as a spendable output)
-	let unclaimed = r
-		.unspent
-		.iter()
-		.filter(|u| {
-			let key = u.split(',').next().unwrap_or("").trim_start_matches('{').to_string();
-			!key.is_empty() && !r.spendable.iter().any(|s| s.contains(&key))
-		})
-		.count();
-	if unclaimed > 0 {
-		stats.unspent_nonempty += 1;
 	}
 }
 
@@ -1702,6 +2338,20 @@ fn print_stats(st: &Stats) {
 	print_hist("S timing", &st.s_timing);
 	print_hist("styles", &st.styles);
 	print_hist("justice txs/scenario (bucket<=)", &st.justice);
+	print_hist("channel types", &st.chan_types);
+	eprintln!("h_justice: chan_type/timing/|S|/fee_in_pos (H=HTLC input, F=fee input, one word per S tx):");
+	for (k, v) in st.s_shape.iter() {
+		eprintln!("h_justice:     {:<56}{}", k, v);
+	}
+	print_hist("styles of same_block scenarios", &st.same_block_styles);
+	eprintln!("h_justice: same_block scenarios in which an S tx really shared the commitment's block: {}", st.same_block_mined);
+	print_hist("fee trajectory / delay D", &st.traj);
+	print_hist("re-issues per claim (bucket<=)", &st.bumps_per_claim);
+	print_hist("highest/first feerate per claim", &st.max_ratio);
+	eprintln!(
+		"h_justice: FEE VIOLATIONS: feerate_decreased={} below_min(estimate,affordable)={} | S candidates skipped (did not verify)={} | BumpTransaction events handled={} | scenarios with an owed output left unspent={}",
+		st.viol_monotone, st.viol_follow, st.s_skipped, st.bump_events, st.owed_unspent
+	);
 	eprintln!(
 		"h_justice: scenarios reloaded={} (reloads total={}) aged_before_cheat={} cheated_mid_capture={}",
 		st.reloaded, st.reloads, st.aged, st.mid_cheat
@@ -1715,8 +2365,8 @@ fn print_stats(st: &Stats) {
 		st.both_dirs, st.old_states, st.s_early_scen, st.s_early, st.s_race_won_scen, st.s_race_won, st.s_lost_scen, st.s_lost
 	);
 	eprintln!(
-		"h_justice: final balances empty and SpendableOutputs emitted={} otherwise={} scenarios_with_outputs_neither_spent_nor_reported_spendable={}",
-		st.drained, st.not_drained, st.unspent_nonempty
+		"h_justice: final balances empty and SpendableOutputs emitted={} otherwise={}",
+		st.drained, st.not_drained
 	);
 }
 
